@@ -218,3 +218,22 @@ package sqlgen
 //@   ensures err == nil ==> result != nil && fresh(result) && result.shardLimit == shardLimit && result.Conn == old(db.Conn) && result.Schema == old(db.Schema) && result.batchFetch == old(db.batchFetch) && result.panicOnNoIndex == old(db.panicOnNoIndex)
 //@   ensures err == nil ==> result.dynamicLimit.GetLimitFilter == old(db.dynamicLimit.GetLimitFilter) && result.dynamicLimit.ShouldContinueOnError == old(db.dynamicLimit.ShouldContinueOnError)
 //@   ensures db.shardLimit == old(db.shardLimit)
+
+// ---- C10 (the matcher sees the row's own values): extractRow reads column c of a fetched row through the column's field
+// path (Index - which skips fields that are not columns and descends into embedded structs), never through its ordinal among
+// the columns, and enters it under the column's name; every column is entered.
+//@ func Table.extractRow
+//@   assume t != nil
+//@   nocall Value.Field
+//@   ghost seen map[int]bool
+//@   call Value.FieldByIndex assert arg1 == column.Index
+//@   call mapupdate assert arg1 == column.Name
+//@   call mapupdate ghost seen[rangeindex+1] = true
+//@   loop 1 invariant -1 <= rangeindex && rangeindex < len(t.Columns) && (forall k int :: 0 <= k && k <= rangeindex ==> seen[k])
+//@   ensures forall k int :: 0 <= k && k < len(t.Columns) ==> seen[k]
+
+// ---- C13 / C07 (column k is read with scanner k): a column's Order is its position in the table's column list - the list
+// the scanners, the SELECT list and the wire form of a filter are all indexed by - not the position of its field in the
+// struct (the two differ as soon as a field is not a column); its Index is the field's own path.
+//@ func Schema.buildDescriptor
+//@   call append#1 assert arg0 == columns && arg1[0] != nil && arg1[0].Order == len(columns) && arg1[0].Name == column
